@@ -230,6 +230,20 @@ def c05_run(tr, c):
     for k, st in enumerate(tr.steps):
         if st["res"] == 1 and k != len(tr.steps) - 1:
             out.append(viol("C05", st["t"], "the run continued after a crash"))
+    # a step in which the distribution found a negative inventory ends with the return code 1 (crashed), not with an exception
+    last = tr.steps[-1] if tr.steps else None
+    if last is not None and last["res"] == "raised":
+        ph = last["phases"].get("distribute")
+        if ph and ph.get("exc") and "RuntimeError" in str(ph.get("exc")) and tr.step_error:
+            out.append(viol("C05", last["t"], f"an inventory became negative and next_step() raised {tr.step_error[1]} instead of "
+                                              f"returning the crashed code", message=str(tr.step_error[2])[:160]))
+    return out
+
+
+def c05_run_c20(tr, c):
+    out = c05_run(tr, c)
+    for v in out:
+        v["property"] = "C20"
     return out
 
 
